@@ -20,6 +20,7 @@ Non-trivial = an injection at a point with pending output text, or >= 1 pending 
 fn profile() -> Profile {
     Profile {
         pure_functions: true,
+        idioms: false,
         lists: false,
         random: false,
         shuffles: false,
